@@ -10,7 +10,7 @@ THEOREMS = ['Feox.C07.linearizable', 'Feox.C07.linearization_points', 'Feox.C07.
 ASSUME = [
     "guard atomicity: everything a call does while it holds the bucket entry of its key (hash_table.entry) is one atomic step with respect to other calls on that key (scc::HashMap entry locking); atomics are sequentially consistent at the granularity of the modelled accesses",
     "the model is per key, TTL off; values are read from the generation (the persistent read path is C08's subject)",
-    "the scheduler of the tie interleaves at the hooked scheduling points only; races inside a guarded step are not produced by it",
+    "the scheduler of the tie interleaves at the hooked scheduling points only; races inside a guarded step are not produced by it - they are probed by the free-running histories, which are judged by a brute-force linearizability search against the specification (a search, not a proof)",
 ]
 
 
@@ -18,4 +18,4 @@ def run(ctx):
     if ctx.replay:
         bad = conc_replay(ctx, ctx.replay)
         return 1 if bad else 0
-    return conc_check(ctx, MODULE, THEOREMS, ['C07'], "concurrent history", ASSUME)
+    return conc_check(ctx, MODULE, THEOREMS, ['C07'], "concurrent history", ASSUME, pre_finish=stress_stage)
